@@ -9,7 +9,7 @@ SPECDIR = "C20"
 REPO = os.environ.get("VERIF_REPO") or "/repo"
 # cargo target directory of the generated crates, reused across runs (a scratch tree gets its own)
 TARGET = os.path.join(fw.HARNESS, "target-macrogen") if REPO == "/repo" else \
-    os.path.join("/tmp", "verif-target-macrogen-%s" % abs(hash(REPO)))
+    os.path.join("/tmp", "verif-target-macrogen-%s" % __import__("hashlib").md5(REPO.encode()).hexdigest()[:8])
 
 RT_HELPERS = r'''
 #![allow(unused_imports, unused_variables, dead_code, clippy::all)]
@@ -229,6 +229,9 @@ FIXED_INVALID = [
     {"kind": "invalid", "macro": "rbig", "fam": "rat", "par": [], "toks": [_t("digits", "1"), _t("slash", "/"), _t("slash", "/"), _t("digits", "2")]},
     {"kind": "invalid", "macro": "ibig", "fam": "int", "par": [], "toks": [_t("sign", "-"), _t("sign", "-"), _t("digits", "5")]},
     {"kind": "invalid", "macro": "static_rbig", "fam": "rat", "par": [], "toks": [_t("tilde", "~"), _t("tilde", "~"), _t("digits", "1"), _t("slash", "/"), _t("digits", "2")]},
+    {"kind": "invalid", "macro": "rbig", "fam": "rat", "par": [], "toks": [_t("digits", "1"), _t("digits", " 2")]},
+    {"kind": "invalid", "macro": "rbig", "fam": "rat", "par": [], "toks": [_t("digits", "1"), _t("sign", "-"), _t("digits", "2")]},
+    {"kind": "invalid", "macro": "static_rbig", "fam": "rat", "par": [], "toks": [_t("digits", "22"), _t("slash", "/")]},
 ]
 
 
